@@ -79,5 +79,27 @@ PROPS = {
         "note": "Theorems are about the extracted tables (tie T1) - a table the extractor cannot read becomes `none` and breaks the obligation.",
         "assumptions": ["the extractor reads the switch statements and map literals faithfully (cross-checked by the exhaustive correspondence)"],
     },
+    "C06": {
+        "title": "MSM timestamps are converted to the true UTC time across week rollovers",
+        "design_ref": "DESIGN.md §7 C06, §4.7",
+        "technique": "Lean 4 proof (state invariant per constellation preserved by every message, induction on the history; rollover arithmetic by omega) + extracted receiver/field facts + differential correspondence timehist through GetMessage",
+        "text": "Kernel-checked theorem: for every start time T (any instant) and every history of GPS/Galileo/GLONASS/BeiDou MSM4/MSM7 messages satisfying the precondition - any interleaving, "
+                "any length, any number of week rollovers, illegal timestamps inserted anywhere - the model of New(T) + GetMessage reports for every message exactly the true UTC instant and the true "
+                "start of the constellation week (GPS/Galileo -18 s, BeiDou -4 s, GLONASS Sat 21:00 UTC), and an illegal timestamp yields an error and leaves the state untouched. "
+                "Receiver kinds (pointer vs value), the fields each conversion reads/writes, the dispatch tables, New's initialisation and all constants are regenerated from the source and pinned by obligations. "
+                "Tied to the Go code through the public interface (New + GetMessage on synthetic CRC-valid frames) with an independent time-package oracle.",
+        "note": "Instants are modelled as integer milliseconds; Go's time.Time calendar arithmetic (AddDate in UTC, Weekday, Format/Parse) is trusted and tied by correspondence with start times dense around every rollover.",
+        "assumptions": ["Go time package: AddDate(0,0,n) in UTC adds n*24h; Weekday() is correct", "leap-second offsets are the constants in the source (GPS 18 s, BeiDou 4 s)"],
+    },
+    "C17": {
+        "title": "Any start time within the week of the first observation gives correct times",
+        "design_ref": "DESIGN.md §7 C17",
+        "technique": "Lean 4 proof (same invariant as C06 with the weaker precondition; corollary: start times of one week are interchangeable) + extracted initialisation shape of New + differential correspondence",
+        "text": "Kernel-checked theorems: for every start time T and every history whose first observation per constellation lies in T's constellation week - before, at or after T - "
+                "all reported times and week starts are the true ones; two start times in the same constellation weeks produce identical reports for every history. "
+                "The extracted shape of New's initialisation of the stored timestamps (zero) is an obligation. Tied through New + GetMessage with first observations anywhere in the week.",
+        "note": "As C06.",
+        "assumptions": ["as C06"],
+    },
 }
 NOT_APPLICABLE = {}
